@@ -20,6 +20,12 @@ package store
 //	                                         database file, or a database file and a WAL file) is written into
 //	                                         a sink of the node's snapshot store, the sink is closed, the
 //	                                         snapshot is opened and handed to the REAL fsmRestore
+//	                                         (nWAL == 2: the node lags by two entries, the image is a database
+//	                                         file and two WAL files)
+//	REAP                                     consolidation of the snapshot store: the REAL snapshot.Store.Reap
+//	                                         (reapInternal builds the plan, plan.Executor folds the WAL files of
+//	                                         the chain - those of an installed full snapshot and those of the
+//	                                         local incrementals - into the database file of the full snapshot)
 //	touch                                    database file looks modified from outside (dbModified)
 //	restart                                  the process ends and starts again: FAST start when the
 //	                                         clean_snapshot marker matches the database file (file kept, WAL
@@ -222,7 +228,7 @@ func (e *vcEnv) openStore() {
 	}
 	st, err := snapshot.NewStore(s.snapshotDir)
 	vcMust(err)
-	st.SetReapThreshold(1000) // reaping is outside this check
+	st.SetReapThreshold(1000) // no automatic reap: consolidation happens where a history has a REAP step
 	st.SetNoVerifyDB(true)
 	st.SetReadTimeout(0) // no idle timer on the readers returned by Open
 	s.snapshotStore = st
@@ -334,6 +340,9 @@ func (e *vcEnv) leaderImage(st vcState) string {
 	path := filepath.Join(dir, "image-"+string(rune('a'+e.nimages%26))+".db")
 	if !verifSymbolic() {
 		vcMakeDBFile(path, st)
+		// a leader's database file is in WAL mode (a follower checkpoints its own WAL files into it)
+		vcMust(sql.EnsureWALMode(path))
+		vcMust(sql.RemoveWALFiles(path))
 		e.tags[vcFileSum(path)] = vcTag{ok: true, lin: st.lin, seq: e.seq}
 		return path
 	}
@@ -343,28 +352,37 @@ func (e *vcEnv) leaderImage(st vcState) string {
 	return path
 }
 
-// leaderImageWAL makes a database file holding pre and one WAL file that rewrites both pages to
-// version ver (what a leader with a full and an incremental snapshot streams).
-func (e *vcEnv) leaderImageWAL(pre vcState, ver int) (string, []string) {
-	e.seq += 2
+// leaderImageWAL makes a database file holding pre and n WAL files, the k-th of which (k from 0)
+// rewrites both pages to version ver+k (what a leader with a full and n incremental snapshots
+// streams).
+func (e *vcEnv) leaderImageWAL(pre vcState, ver, n int) (string, []string) {
+	e.seq += n + 1
 	e.nimages++
 	dir := filepath.Join(e.root, "leader")
 	vcMust(os.MkdirAll(dir, 0o755))
 	base := filepath.Join(dir, "image-"+string(rune('a'+e.nimages%26)))
-	db, wal := base+".db", base+".wal"
-	if !verifSymbolic() {
-		e.nativeLeaderImageWAL(db, wal, pre, ver)
-		e.tags[vcFileSum(db)] = vcTag{ok: true, lin: pre.lin, seq: e.seq - 1}
-		e.tags[vcFileSum(wal)] = vcTag{ok: true, lin: pre.lin, seq: e.seq}
-		return db, []string{wal}
+	db := base + ".db"
+	var wals []string
+	for k := 0; k < n; k++ {
+		wals = append(wals, base+"-"+string(rune('0'+k))+".wal")
 	}
-	n, err := vcCreateFile(db)
+	if !verifSymbolic() {
+		e.nativeLeaderImageWAL(db, wals, pre, ver)
+		e.tags[vcFileSum(db)] = vcTag{ok: true, lin: pre.lin, seq: e.seq - n}
+		for k, wal := range wals {
+			e.tags[vcFileSum(wal)] = vcTag{ok: true, lin: pre.lin, seq: e.seq - n + 1 + k}
+		}
+		return db, wals
+	}
+	f, err := vcCreateFile(db)
 	vcMust(err)
-	n.data = vcDBBytes(pre, e.seq-1)
-	w, err := vcCreateFile(wal)
-	vcMust(err)
-	w.data = vcWALBytes(pre.lin, e.seq, [2]int{ver, ver}, [2]int{pre.c[0] + 1, pre.c[1] + 1}, [2]bool{true, true})
-	return db, []string{wal}
+	f.data = vcDBBytes(pre, e.seq-n)
+	for k, wal := range wals {
+		w, err := vcCreateFile(wal)
+		vcMust(err)
+		w.data = vcWALBytes(pre.lin, e.seq-n+1+k, [2]int{ver + k, ver + k}, [2]int{pre.c[0] + 1 + k, pre.c[1] + 1 + k}, [2]bool{true, true})
+	}
+	return db, wals
 }
 
 // liveState: the database as a reader of the node sees it now.
@@ -632,17 +650,33 @@ func (h *vcHist) boot() {
 // whose newest snapshot is a full one), or (withWAL) from the database file as of this node's
 // applied state plus one WAL file holding that entry (a leader with a full and an incremental
 // snapshot).
-func (h *vcHist) install(withWAL bool) {
+//
+// With nWAL == 2 the node lags behind by two such entries and the leader streams the database file
+// and two WAL files (a leader with a full and two incremental snapshots), one entry each.
+func (h *vcHist) install(nWAL int) {
 	s := h.e.s
-	idx := uint64(h.applied + 1)
-	img := vcState{lin: h.live.lin, p: [2]int{int(idx), int(idx)}, c: [2]int{h.live.c[0] + 1, h.live.c[1] + 1}}
+	withWAL := nWAL > 0
+	lag := 1
+	if nWAL > 1 {
+		lag = nWAL
+	}
+	first := h.applied + 1
+	idx := uint64(h.applied + lag)
+	img := vcState{lin: h.live.lin, p: [2]int{int(idx), int(idx)}, c: [2]int{h.live.c[0] + lag, h.live.c[1] + lag}}
+	var mids []vcState // the database after each entry before the last one
+	for k := 1; k < lag; k++ {
+		mids = append(mids, vcState{lin: h.live.lin, p: [2]int{first + k - 1, first + k - 1}, c: [2]int{h.live.c[0] + k, h.live.c[1] + k}})
+	}
 	vcTick()
 	retained := h.stagedWALs() > 0
 	var src string
 	var srcWALs []string
 	if withWAL {
-		src, srcWALs = h.e.leaderImageWAL(h.live, int(idx))
+		src, srcWALs = h.e.leaderImageWAL(h.live, first, nWAL)
 		verifReach("installed-db-and-wal")
+		if nWAL > 1 {
+			verifReach("installed-db-and-two-wals")
+		}
 	} else {
 		src = h.e.leaderImage(img)
 	}
@@ -662,6 +696,9 @@ func (h *vcHist) install(withWAL bool) {
 	verifAssert("C04-install-restore-ok", rerr == nil)
 	h.e.lin = img.lin
 	h.markerIdx = int(idx)
+	for _, mid := range mids {
+		h.nop(mid)
+	}
 	h.nop(img)
 	h.loadPending = false
 	h.fullForgotten = false
@@ -672,6 +709,76 @@ func (h *vcHist) install(withWAL bool) {
 	}
 	h.checkLive("install")
 	h.checkNewest("install", idx)
+}
+
+// reap: the consolidation of the snapshot store (snapshot.Store.Reap, what the reap loop does when
+// the number of snapshots reaches the threshold): the REAL reapInternal builds the plan, the REAL
+// plan.Executor folds the WAL files of the chain into the database file of the newest full snapshot
+// (symbolic: db.CheckpointRemove is the token fold; native: real SQLite), removes the incremental
+// snapshots and renames the result to the newest snapshot's id. Oracle: the store still holds a
+// snapshot for the same index, and it rebuilds the same database as before, which is the database
+// the node had applied at that index; the consolidated database file is the base as of the LAST
+// checkpoint of the chain (a plan that folds the WAL files in another order than the one they were
+// produced in leaves an older checkpoint last, or an older page image on top).
+func (h *vcHist) reap() {
+	st := h.e.snaps
+	metas, err := st.List()
+	verifAssert("C04-reap-list-ok", err == nil)
+	if len(metas) == 0 {
+		n, c, err := st.Reap()
+		verifAssert("C04-reap-empty-store-nothing-to-do", err == nil && n == 0 && c == 0)
+		return
+	}
+	m := metas[0]
+	dbFile, walFiles, err := snapshot.VerifC04Resolve(st, m.ID)
+	verifAssert("C04-reap-before-resolves", err == nil && dbFile != "")
+	last := h.e.tagDB(dbFile)
+	chainOK := last.ok
+	for _, wf := range walFiles {
+		t := h.e.tagWAL(wf)
+		if !t.ok || t.lin != last.lin || t.seq <= last.seq {
+			chainOK = false
+		}
+		last.seq = t.seq
+	}
+	before, okBefore := h.e.restore(m.ID)
+	verifAssert("C04-reap-before-restorable", okBefore)
+	vcTick()
+	_, nwals, err := st.Reap()
+	verifAssert("C04-reap-ok", err == nil)
+	// a store that holds a single snapshot is left as it is, even when that snapshot (an installed
+	// one) has WAL files of its own: nothing is folded then
+	folded := err == nil && nwals > 0
+	if folded {
+		verifReach("reap-consolidated")
+		if len(walFiles) > 1 {
+			verifReach("reap-consolidated-chain")
+		}
+	} else {
+		verifReach("reap-nothing-to-fold")
+	}
+	metas, err = st.ListAll()
+	verifAssert("C04-reap-leaves-one-snapshot", err == nil && len(metas) == 1)
+	if !verifSymbolic() && chainOK && folded && len(metas) == 1 {
+		// native world: provenance is kept by content; the consolidated database file is new
+		// content, by definition the base as of the last checkpoint of the chain
+		if db2, _, err := snapshot.VerifC04Resolve(st, metas[0].ID); err == nil && db2 != "" {
+			if _, known := h.e.tags[vcFileSum(db2)]; !known {
+				h.e.tags[vcFileSum(db2)] = last
+			}
+		}
+	}
+	after, idx, any := h.checkNewest("reap", m.Index)
+	verifAssert("C04-reap-keeps-a-snapshot", any && idx == m.Index)
+	verifAssert("C04-reap-rebuilds-the-same-database", after == before)
+	if any && chainOK && folded {
+		db2, wals2, err := snapshot.VerifC04Resolve(st, metas[0].ID)
+		verifAssert("C04-reap-after-resolves", err == nil && len(wals2) == 0)
+		if verifSymbolic() {
+			t := h.e.tagDB(db2)
+			verifAssert("C04-reap-folded-in-checkpoint-order", t.ok && t.lin == last.lin && t.seq == last.seq)
+		}
+	}
 }
 
 // checkLive: the database the node serves is the one it has applied.
@@ -1009,6 +1116,9 @@ const (
 	stW01        // the page-heavy write batch: both pages in one transaction
 	stInstallWAL // install of a leader image made of a database file and a WAL file
 	stKinds
+	// steps outside the exhaustive step alphabet (used by Scenarios and VerifC04Reap)
+	stReap        = iota // consolidation of the snapshot store (snapshot.Store.Reap)
+	stInstallWAL2        // install of a leader image made of a database file and TWO WAL files
 )
 
 func (h *vcHist) step(k int) {
@@ -1028,9 +1138,13 @@ func (h *vcHist) step(k int) {
 	case stBoot:
 		h.boot()
 	case stInstall:
-		h.install(false)
+		h.install(0)
 	case stInstallWAL:
-		h.install(true)
+		h.install(1)
+	case stInstallWAL2:
+		h.install(2)
+	case stReap:
+		h.reap()
 	case stW01:
 		h.write(2)
 	case stTouch:
@@ -1087,6 +1201,12 @@ var vcScenarios = [][]int{
 	{stW0, stSnapOK, stBoot, stW01, stSnapOK, stInstall, stW1, stSnapOK},
 	// an install replaces a database for which a LOAD had asked for a full snapshot
 	{stW0, stSnapOK, stLoad, stInstallWAL, stW0, stSnapOK},
+	// consolidation of a locally produced chain (full + two incrementals rewriting the same page), then more snapshots
+	{stW0, stSnapOK, stW0, stSnapOK, stW0, stSnapOK, stReap, stW0, stSnapOK},
+	// consolidation of an installed database file + WAL file and two local incrementals on top
+	{stW0, stSnapOK, stInstallWAL, stW0, stSnapOK, stW1, stSnapOK, stReap, stW0, stSnapOK},
+	// ... of an installed database file + two WAL files and a local incremental on top
+	{stInstallWAL2, stW01, stSnapOK, stReap, stW1, stSnapOK},
 }
 
 func VerifC04Scenarios() {
@@ -1152,6 +1272,42 @@ func VerifC04Retained() {
 		steps = append(steps, stSnapSkip)
 	}
 	steps = append(steps, stSnapOK, later, stSnapOK)
+	vcRun(steps, 0, 1)
+}
+
+// VerifC04Reap: consolidation histories, as a product:
+//
+//	[nothing | write page 0; full snapshot]; INSTALL of (database file | database file + WAL file |
+//	database file + two WAL files); [reap at once]; one or two times (write page 0 | page 1 | both;
+//	snapshot ok [released without Persist first]); REAP; [write; snapshot ok; [REAP]]; restart as it
+//	is (fast or slow) and with the restore forced.
+//
+// Every WAL file of an installed image rewrites both pages, every local incremental rewrites one
+// or both of them again: the order in which the consolidation folds them decides the result.
+func VerifC04Reap() {
+	var steps []int
+	if verifChoice("own-full-first", 2) == 1 {
+		steps = append(steps, stW0, stSnapOK)
+	}
+	steps = append(steps, []int{stInstall, stInstallWAL, stInstallWAL2}[verifChoice("image", 3)])
+	if verifTier() > 0 && verifChoice("reap-at-once", 2) == 1 {
+		steps = append(steps, stReap)
+	}
+	n := 1 + verifChoice("incrementals", 2)
+	for i := 0; i < n; i++ {
+		steps = append(steps, []int{stW0, stW1, stW01}[verifChoice(verifName("page", i), 3)])
+		if verifTier() > 0 && verifChoice(verifName("skip-first", i), 2) == 1 {
+			steps = append(steps, stSnapSkip)
+		}
+		steps = append(steps, stSnapOK)
+	}
+	steps = append(steps, stReap)
+	switch verifChoice("after", 3) {
+	case 1:
+		steps = append(steps, stW0, stSnapOK)
+	case 2:
+		steps = append(steps, stW1, stSnapOK, stReap)
+	}
 	vcRun(steps, 0, 1)
 }
 
